@@ -282,7 +282,7 @@ def build(plan):
 POLS = ["HH", "HV", "VH", "VV"]
 
 
-def gen_plan(rng, max_lines=40, max_pixels=32, max_images=8, level=None, big=False):
+def gen_plan(rng, max_lines=40, max_pixels=32, max_images=8, level=None, big=False, large=0.03):
     level = level or rng.choice(["1.1", "1.5", "1.5", "3.1"])
     n_img = rng.choice([1, 1, 2, 2, 3, rng.randint(1, max_images)])
     scansar = rng.random() < 0.4
@@ -313,6 +313,13 @@ def gen_plan(rng, max_lines=40, max_pixels=32, max_images=8, level=None, big=Fal
         return rng.randint(1, max_lines), rng.randint(1, max_pixels)
 
     base = shape()
+    if rng.random() < large:
+        # an image file of 1-3 MB (several hundred records of 1.3-3 kB): byte-size thresholds
+        # (request coalescing, read-ahead, block sizes) are crossed only by files like this
+        base = (rng.randint(450, 900),
+                rng.randint(100, 300) if level == "1.1" else rng.randint(500, 1400))
+        same_shape = True
+        combos = combos[:rng.choice([1, 1, 2])]
     images = []
     for pol, scan in combos:
         n, px = base if same_shape else shape()
